@@ -12,7 +12,7 @@ pub struct P {
     pub len: usize,
     pub kind: Kind,
     pub single: bool,
-    /// 0 = the cipher crate's own contexts; 1..=6 = a caller-supplied rank-2 closure passed to `*_with_backend` /
+    /// 0 = the cipher crate's own contexts; 1..=8 = a caller-supplied rank-2 closure passed to `*_with_backend` /
     /// `process_with_backend` (shapes: see `base::api::BlockMode::many_closure`); 9 (keystream cores only) =
     /// `write_keystream_block` (single) / `write_keystream_blocks` into a scratch buffer that the harness XORs in
     pub closure: u8,
@@ -25,7 +25,7 @@ pub fn pc(len: usize, mode: u8) -> P {
     P { len, kind: Kind::InPlace, single: false, closure: mode }
 }
 pub fn ps(pieces: &[P]) -> String {
-    pieces.iter().map(|p| format!("{}{}{}{}", p.len, if p.single { "s" } else { "" }, match p.closure { 0 => "", 1 => "c", 2 => "t", 3 => "ci", 4 => "ti", 5 => "cs", 6 => "cm", _ => "w" }, match p.kind { Kind::InPlace => "", Kind::B2b => "b", Kind::InOut => "x" })).collect::<Vec<_>>().join(",")
+    pieces.iter().map(|p| format!("{}{}{}{}", p.len, if p.single { "s" } else { "" }, match p.closure { 0 => "", 1 => "c", 2 => "t", 3 => "ci", 4 => "ti", 5 => "cs", 6 => "cm", 7 => "cbi", 8 => "cib", _ => "w" }, match p.kind { Kind::InPlace => "", Kind::B2b => "b", Kind::InOut => "x", Kind::Alias => "a" })).collect::<Vec<_>>().join(",")
 }
 
 pub struct FeOut {
@@ -88,7 +88,7 @@ fn take<'b>(data: &'b [u8], off: &mut usize, n: usize) -> &'b [u8] {
     s
 }
 fn outbuf(kind: Kind, inp: &[u8], prefill: &[u8], off: usize) -> Vec<u8> {
-    if kind == Kind::InPlace { inp.to_vec() } else { prefill[off..off + inp.len()].to_vec() }
+    if kind.in_place() { inp.to_vec() } else { prefill[off..off + inp.len()].to_vec() }
 }
 fn check_pieces(pieces: &[P], total: usize) {
     assert_eq!(pieces.iter().map(|p| p.len).sum::<usize>(), total, "harness: pieces do not cover the data");
@@ -102,7 +102,7 @@ pub fn fe_bm<'a>(cfg: &'a Cfg, d: &'a BlockModeDesc) -> Fe<'a> {
         gran: d.mbs,
         multi: true,
         singles: true,
-        closures: vec![1, 2, 3, 4, 5, 6],
+        closures: vec![1, 2, 3, 4, 5, 6, 7, 8],
         kinds: KINDS.to_vec(),
         min_len: 0,
         run: Box::new(move |key, iv, data, pieces, prefill| {
